@@ -261,6 +261,64 @@ def rule_i6(F):
     return r
 
 
+def rule_i7(F):
+    """A Rust type is registered at most once: the lookup that guards Rt::declare_type finds ANY earlier registration of the same
+    TypeId (its predicate is the type-id equality alone - a conjunction narrows it), a hit returns an error, and only then is the
+    new entry pushed."""
+    r = RuleResult("C18.I7", "declare_type refuses every second registration of a Rust type: lookup by TypeId alone, hit -> Err, before the entry is added", floor=3)
+    b = F.body("runtime::Rt::declare_type")
+    if b is None or not b.hir:
+        r.missing("runtime::Rt::declare_type")
+        return r
+    h = b.hir["value"]
+    look = None
+    for c in hir.nodes(h, "mcall"):
+        if c["m"] in ("find", "any", "position") and any(n.get("k") == "field" and n.get("n") == "types" for n in hir.walk(c["recv"])) and c["args"]:
+            look = c
+    if look is None:
+        r.missing("lookup over self.types in declare_type")
+        return r
+    cl = hir.strip(look["args"][0])
+    body = hir.strip(cl.get("body") or {}) if cl.get("k") == "closure" else {}
+
+    def is_tid_eq(e):
+        e = hir.strip(e)
+        if e.get("k") != "bin" or e.get("op") != "==":
+            return False
+        fa = [n.get("n") for n in hir.walk(e["a"]) if n.get("k") == "field"]
+        fb = [n.get("n") for n in hir.walk(e["b"]) if n.get("k") == "field"]
+        return "type_id" in fa and "type_id" in fb
+
+    def accepts_all_equal(e):
+        """predicate is true whenever the type ids are equal"""
+        e = hir.strip(e)
+        if is_tid_eq(e):
+            return True
+        if e.get("k") == "bin" and e.get("op") == "||":
+            return accepts_all_equal(e["a"]) or accepts_all_equal(e["b"])
+        return False
+    ok_pred = accepts_all_equal(body)
+    r.inst("lookup predicate", {"line": look["line"], "is_type_id_equality": ok_pred})
+    if not ok_pred:
+        r.bad(b.path, "duplicate lookup predicate", relfile(b.file), look["line"],
+              "the lookup for an earlier registration does not match every entry with the same TypeId (the predicate is narrowed): the same Rust type can be registered twice, e.g. under the same name in another scope")
+    # hit -> Err
+    hit_err = False
+    for iff in hir.nodes(h, "if"):
+        if any(n is look for n in hir.walk(iff["cond"])):
+            descs = [str(hir.result_desc(x.get("e"))) for x in hir.nodes(iff["then"], "ret")]
+            hit_err = any("Err" in d for d in descs) and hir.diverges(iff["then"])
+    r.inst("hit returns Err", {"ok": hit_err})
+    if not hit_err:
+        r.bad(b.path, "duplicate not refused", relfile(b.file), look["line"], "finding an earlier registration of the same Rust type does not return a RegistrationError")
+    # order: lookup before push
+    pushes = [c for c in hir.nodes(h, "mcall") if c["m"] == "push" and any(n.get("k") == "field" and n.get("n") == "types" for n in hir.walk(c["recv"]))]
+    r.inst("entry added after the lookup", {"pushes": len(pushes)})
+    if not pushes or any(c["line"] < look["line"] for c in pushes):
+        r.bad(b.path, "push before lookup", relfile(b.file), b.line, "the new entry is added to self.types before (or without) the duplicate lookup")
+    return r
+
+
 def rule_i5(F):
     r = RuleResult("C18.I5", "every TypeChecker::declare_runtime_* result becomes a RegistrationError and is propagated", floor=6)
     n = 0
@@ -312,4 +370,4 @@ def rule_i5(F):
 
 def rules(ctx):
     F = ctx["F"]
-    return [rule_i1(F), rule_i2(F), rule_i3(F), rule_i4(F), rule_i5(F), rule_i6(F)]
+    return [rule_i1(F), rule_i2(F), rule_i3(F), rule_i4(F), rule_i5(F), rule_i6(F), rule_i7(F)]
